@@ -328,7 +328,7 @@ struct RegHarness : Harness {
         if (p == "C02") return {"write_inside_64bit_register", "partial_overlap_violates_constraint", "block_spans_two_areas", "block_into_readonly", "block_into_hole",
                                 "block_write_accepted", "block_decode_failure", "zero_length_write", "readonly_not_at_request_start", "reinit_after_registers_removed", "reinit_after_register_moved_within_its_area", "block_of_64k_words_or_more", "value_objects_with_stale_octets", "byte_order_requested_repeatedly", "areas_half_the_address_space_apart", "table_written_with_header_macros", "table_ends_at_top_of_address_space", "area_wider_than_64k_words", "request_ends_at_last_address"};
         if (p == "C03") return {"read_write_only_area_mid_area", "read_in_two_steps", "read_spans_two_areas", "read_into_hole", "zero_length_read", "iteration_starts_in_gap", "iteration_starts_mid_register",
-                                "iteration_stopped_by_callback", "iteration_negative_callback", "iteration_visits_several", "reinit_after_registers_removed", "reinit_after_register_moved_within_its_area", "area_without_read_callback", "value_objects_with_stale_octets", "byte_order_requested_repeatedly", "areas_half_the_address_space_apart", "table_written_with_header_macros", "table_ends_at_top_of_address_space", "area_wider_than_64k_words", "request_ends_at_last_address"};
+                                "iteration_stopped_by_callback", "iteration_negative_callback", "iteration_visits_several", "reinit_given_up_for_want_of_an_entry_list", "reinit_after_registers_removed", "reinit_after_register_moved_within_its_area", "area_without_read_callback", "value_objects_with_stale_octets", "byte_order_requested_repeatedly", "areas_half_the_address_space_apart", "table_written_with_header_macros", "table_ends_at_top_of_address_space", "area_wider_than_64k_words", "request_ends_at_last_address"};
         if (p == "C04") return {"defect_no_areas", "defect_areas_swapped", "defect_area_overlap", "defect_regs_swapped", "defect_reg_overlap", "defect_reg_straddles_area_end",
                                 "defect_reg_in_hole", "defect_bad_default", "wellformed_accepted", "restart_over_surviving_callback_storage", "ops_report_uninitialised", "empty_area_between_populated", "reinit_of_initialised_table_rejected", "reinit_after_registers_removed", "reinit_after_register_moved_within_its_area", "value_objects_with_stale_octets", "byte_order_requested_repeatedly", "areas_half_the_address_space_apart", "table_written_with_header_macros", "table_ends_at_top_of_address_space", "area_wider_than_64k_words"};
         return {"invariant_checked_ops", "refused_op_left_storage_unchanged", "bit_set_exact", "bit_clear_exact", "bit_op_refused_signed_or_float", "sanitise_reset_some_kept_some",
@@ -576,7 +576,7 @@ struct RegHarness : Harness {
             o["cbfail"] = (long long)(r.chance(1, 2) ? -1 : (int64_t)r.below(6));   // an I/O error at the k-th callback-area access of the call, or none
         } else if (k == "redefect") {
             o["d"] = (long long)r.below(9); o["salt"] = (long long)r.below(1 << 20);
-        } else if (k == "reedit" || k == "move") {
+        } else if (k == "reedit" || k == "move" || k == "givenup") {
             o["salt"] = (long long)r.below(1 << 20);
         } else if (k == "foreach") {
             uint32_t addr = (uint32_t)r.range(0, hi);
@@ -615,7 +615,7 @@ struct RegHarness : Harness {
         std::vector<std::string> kinds;
         if (prop == "C01") kinds = {"set", "set", "set", "set", "set_unsafe", "get", "get", "default", "corrupt", "sanitise_any", "move"};
         else if (prop == "C02") kinds = {"bw", "bw", "bw", "bw", "bw", "bw", "corrupt", "touchcheck", "reedit", "sanitise_any", "move"};
-        else if (prop == "C03") kinds = {"br", "br", "br", "foreach", "foreach", "foreach", "corrupt", "corrupt", "reedit", "move"};
+        else if (prop == "C03") kinds = {"br", "br", "br", "foreach", "foreach", "foreach", "corrupt", "corrupt", "reedit", "move", "givenup"};
         else if (prop == "C04") kinds = {"corrupt", "restart", "probe_ops", "poststate", "redefect", "reedit", "move"};
         else kinds = {"set", "set", "set", "bit_set", "bit_clear", "bw", "bw", "bw", "sanitise", "sanitise_any", "corrupt", "reedit", "move"};
         if (prop == "C04") {
@@ -979,6 +979,26 @@ struct RegHarness : Harness {
             if (rin.code != REG_INIT_SUCCESS) { S.inited = false; return; }
             S.sync_model_from_actual();
             return;
+        }
+        if (op == "givenup" && P == "C03") {
+            // a re-configuration that is given up half-way: the table object already names another area list when it turns out that there is no
+            // entry list for it; register_init refuses that, the application puts the old pointers back and goes on with the old map. The table
+            // is then either what it was, or says "uninitialised" to everything - not initialised with pieces of the other description
+            if (!S.inited) return;
+            static RegisterAtom omem[4]; static RegisterArea other[4];
+            memset(other, 0, sizeof other);
+            const size_t ocount = 1 + (size_t)((uint64_t)o.geti("salt") % 3);
+            for (size_t i = 0; i < ocount; ++i) { other[i].read = reg_mem_read; other[i].write = reg_mem_write; other[i].flags = REG_AF_READABLE | REG_AF_WRITEABLE; other[i].base = (RegisterAddress)(0x1000 + 8 * i); other[i].size = 4; other[i].mem = omem; }
+            RegisterArea *olda = S.tbl.area; RegisterEntry *olde = S.tbl.entry;
+            S.tbl.area = other; S.tbl.entry = nullptr;
+            RegisterInit rin = register_init(&S.tbl);
+            S.tbl.area = olda; S.tbl.entry = olde;
+            c.ev(EV_API, 105, (uint64_t)rin.code, ocount); c.ops_done++; c.execs++;
+            COUNT("probe.reinit_given_up_for_want_of_an_entry_list");
+            if (rin.code == REG_INIT_SUCCESS) { F("givenup", "register_init accepted a table without an entry list"); return; }
+            uint16_t probe[1] = {0}; RegisterAccess pa = register_block_read(&S.tbl, S.up(S.spec.areas[0].base), 1, (RegisterAtom *)probe);
+            if (pa.code == REG_ACCESS_UNINITIALISED) { probe_uninitialised(S); S.inited = false; return; }
+            return;   // still initialised: the following operations hold it to the old description
         }
         if (op == "redefect" && P == "C04") {
             // the description of an initialised table is edited and register_init runs again on the same object
